@@ -52,8 +52,11 @@ def noise_dim(noise_type, d, m):
 
 
 class NeuralSDE(nn.Module):
-    def __init__(self, d, m, noise_type, sde_type, seed=0, gscale=1.0, rowwise=True):
+    def __init__(self, d, m, noise_type, sde_type, seed=0, gscale=1.0, rowwise=True, batch_varying=False, signed=False):
+        """batch_varying: additive diffusion differs between batch rows (it still does not depend on the state);
+        signed: element-wise (diagonal) diffusion with components of either sign."""
         super().__init__()
+        self.batch_varying, self.signed = batch_varying, signed
         self.noise_type, self.sde_type = noise_type, sde_type
         self.d = d
         self.m = noise_dim(noise_type, d, m)
@@ -86,10 +89,16 @@ class NeuralSDE(nn.Module):
         t = torch.as_tensor(t, dtype=y.dtype)
         dt_ = y.dtype
         if self.noise_type == "diagonal":
-            return self.gscale * self.s.to(dt_) * (1 + 0.5 * torch.sin(self.c.to(dt_) * y + self.e.to(dt_) * t))
+            out = self.gscale * self.s.to(dt_) * (1 + 0.5 * torch.sin(self.c.to(dt_) * y + self.e.to(dt_) * t))
+            if self.signed:
+                out = out * (1.0 - 2.0 * (torch.arange(self.d) % 2).to(dt_))  # +, -, +, ...
+            return out
         if self.noise_type == "additive":
             G = self.G0.to(dt_) + self.G1.to(dt_) * torch.sin(t)
-            return self.gscale * G.unsqueeze(0).expand(y.size(0), -1, -1)
+            out = self.gscale * G.unsqueeze(0).expand(y.size(0), -1, -1)
+            if self.batch_varying:
+                out = out * (1.0 + 0.25 * torch.arange(y.size(0), dtype=dt_)).reshape(-1, 1, 1)
+            return out
         out = torch.tanh(y @ self.G.to(dt_)).reshape(y.size(0), self.d, self.m) * 0.5 + self.g0.to(dt_) * torch.cos(t)
         return self.gscale * out
 
